@@ -353,7 +353,7 @@ func (a *agg) add(l *runLine) {
 	for _, v := range l.Res.Faults {
 		nf += v
 	}
-	if l.Res.Nontrivial && nf > 0 {
+	if l.Res.Nontrivial && (nf > 0 || l.Scenario == "ics20") {
 		a.nontrivial[l.Res.SchedHash] = true
 	}
 	for _, s := range l.Res.States {
